@@ -10,6 +10,7 @@ pub use rspack_sources::{Mapping, OriginalLocation};
 mod encoder;
 
 mod codec;
+mod eqhash;
 mod replace;
 mod rng;
 
@@ -24,6 +25,8 @@ fn main() {
     "replay-enc" => codec::replay_enc(&args[2], false),
     "replay-lines" => codec::replay_enc(&args[2], true),
     "replay-dec" => codec::replay_dec(&args[2]),
+    "search-eqhash" => eqhash::search(&args[2..]),
+    "replay-eqhash" => eqhash::replay(&args[2]),
     "search-replace" => replace::search(&args[2..]),
     "replay-replace" => replace::replay(&args[2]),
     _ => { eprintln!("usage: twin search-enc|search-lines|search-dec|search-replace <seed> <budget> | replay-* <witness>"); 2 }
